@@ -11,3 +11,6 @@ def run(ctx, rep):
     misc.rule_min_identity(mod, rep, which=('growth',))
     from ..rules import more
     more.rule_trsv_loops(mod, rep)
+    import re
+    from ..rules import more2
+    more2.rule_arg_names(mod, rep, lambda f: re.match(r"p[sdcz]gssvx$|[sdcz]gscon$|[sdcz]langs$|[sdcz]lacon_$|[sdcz]PivotGrowth$", f.name) is not None, floor=1)
